@@ -88,6 +88,12 @@ CLAIMED = {
     text='On rectangular, locally refined (columns over three orders of magnitude in size), rotated, quarter-turned-with-one-ulp-noise and shipped irregular geometries, generated points (inside, in the bounding box outside the hull, outside the box, level with a node - in particular level with the lower end of a nearly-but-not-exactly level side) are located by the real search under ten aid combinations and compared with exhaustive own containment; 3-D points incl. above the ground of truncated columns, above the model top under a raised surface and below the model are compared with the unique containing block; straight lines are clipped against every column by own code and compared with the real track for membership, order, entry/exit points, abutting and total length, with the documented corner-clip allowance. The same geometry object is translated and rotated between batches.',
     note='Trusted: vf/oracle/polygeo.py. Points within 1e-6 x local size of an edge and lines through vertices are not generated; quadtrees over subsets use connected patches; the polygon bound is only used when the domain is convex. Known finding: long lines lose clips through the 3-decimal de-duplication in line_polygon_intersections.',
     design='DESIGN.md §3 C12'),
+
+ 'C10': dict(
+    technique='runtime quiescent-point invariant monitor: every editing operation (all column / layer subsets), every pair and sampled longer sequences executed on real mulgrid objects, with own structural invariants evaluated on the live object after each public operation returns; partial model for predictable effects',
+    text='On five small bases (2x2, 3x2, refined 2x2 with triangles, a pentagon mesh, a hexagon mesh; one column cut inside a layer, one exactly on a layer boundary; several atmosphere types and conventions) every single operation - refine with every column subset and every bisection mode with and without edge columns, decompose, reduce to every connected subset, split at every node, rename, refine_layers over every layer subset x factor 2..4, snapping, rotate, translate, copy_layers_from, atmosphere / block-order changes, check(fix) - and every pair of operations is executed and judged: lookups vs lists, node->column, column->connection and symmetric neighbour back-references, connection nodes = shared edge, counter-clockwise columns with up-to-date area, num_layers vs surface, block and connection name lists vs an own fresh derivation, and for operations that promise a valid mesh no missing / extra connections and no orphan nodes (from the polygons alone). Sampled triples and random sequences of up to 25 operations on geometries of up to 300 columns (shipped ones included, optionally followed by a file round trip) add depth; the add_/delete_ primitives are judged immediately after each call.',
+    note='Trusted: vf/oracle/geoinv.py. Operations are identified by their index in a position-sorted canonical enumeration because refine() names new columns in set-iteration order. Domain: connected geometries; refine only where the selection and the columns around it are 3- or 4-sided; rename onto unused names. Known findings: the primitives do not refresh derived data (13 mechanism keys).',
+    design='DESIGN.md §3 C10'),
 }
 
 def main():
